@@ -18,48 +18,13 @@ def rule_verify(ctx, prop):
     rep = Report(prop, "R-VERIFY", "format_ast: both verification failures return Err before any Ok(ast)")
     for cfg, prog in ctx.programs.items():
         f = prog.fn("stylua_lib", "format_ast")
+        if f is not None:
+            from inline import inlined, small_helper
+            f = inlined(prog, f, small_helper(prog, keep=r"^(sort_requires::|formatters::|context::|verify_ast::)"))
         if not rep.anchor(f is not None, "format_ast", cfg):
             continue
-        errs = {}
-        oks = []
-        for b, si_, s in f.stmts():
-            if s["k"] == "assign" and s["rv"]["k"] == "agg":
-                v = s["rv"].get("variant")
-                if v in ("VerificationAstError", "VerificationAstDifference"):
-                    errs[v] = b
-                if v == "Ok" and s["rv"].get("adt", "").endswith("result::Result") and s["dst"]["l"] == 0:
-                    oks.append(b)
-        for v in ("VerificationAstError", "VerificationAstDifference"):
-            ok = v in errs
-            if ok:
-                # the Err block cannot reach an Ok aggregate
-                ok = not any(o in f.reach_from(errs[v]) for o in oks)
-            rep.inst(f"{f.key} {v}-returns-Err", None, cfg, ok=ok)
-            if not ok:
-                rep.violation(f"{f.key} {v}-does-not-abort",
-                              f"Error::{v} is not constructed, or Ok(ast) is reachable after it", f.loc(), cfg)
-        # VerificationAstError is on the Err edge of the re-parse; Difference on the false edge of compare
-        cmpc = [(b, t) for b, t in f.calls() if callee(t).endswith("AstVerifier::compare")]
-        if rep.anchor(len(cmpc) == 1, "AstVerifier::compare call", cfg):
-            # result is negated: `if !compare(..) { return Err }`
-            b, t = cmpc[0]
-            nb = f.blocks[t["t"]]
-            ok = False
-            tt = nb["term"]
-            if tt["k"] == "switch":
-                fl = [bb for v, bb in tt["targets"] if v == 0]
-                neg = any(s["k"] == "assign" and s["rv"]["k"] == "unop" and s["rv"]["op"] == "Not" for s in nb["st"])
-                bad_edge = tt["otherwise"] if neg else (fl[0] if fl else None)
-                if bad_edge is not None and "VerificationAstDifference" in errs:
-                    ok = f.dominates(bad_edge, errs["VerificationAstDifference"])
-                    good_edge = (fl[0] if fl else None) if neg else tt["otherwise"]
-                    ok = ok and all(o not in f.reach_from(bad_edge) for o in oks)
-            rep.inst(f"{f.key} compare-false -> Err(VerificationAstDifference)", None, cfg, ok=ok)
-            if not ok:
-                rep.violation(f"{f.key} compare-result-not-enforced",
-                              "a failed AST comparison does not lead to Err(VerificationAstDifference)", f.loc(t["sp"]), cfg)
-        # the compare happens on every path to Ok when verification was requested: the Some edge of
-        # input_ast_for_verification dominates... (Ok is reached either via None edge or via compare true)
+        oks = [b for b, si_, s in f.stmts() if s["k"] == "assign" and s["rv"]["k"] == "agg" and s["rv"].get("variant") == "Ok"
+               and s["rv"].get("adt", "").endswith("result::Result")]
         rep.floor("Ok(ast) returns in format_ast", len(oks), 1, cfg)
         # --- path form: with verify_output == Full, every path that returns Ok went through the reparse (Ok edge) of
         # the printed formatted tree and through AstVerifier::compare(== true) of the input clone with the reparse
@@ -73,9 +38,21 @@ def rule_verify(ctx, prop):
             rep.anchor(False, "format_ast: too many paths", cfg)
             continue
         nok = 0
+        seen_err = set()
         for st in res:
             v0 = st.vals.get(0)
             if not (v0 and v0[0] == "agg" and v0[2] == "Ok"):
+                # an error path: which verification failure does it report?
+                for bb in st.trail:
+                    for s_ in f.blocks[bb]["st"]:
+                        if s_["k"] == "assign" and s_["rv"]["k"] == "agg" and s_["rv"].get("variant") in \
+                                ("VerificationAstError", "VerificationAstDifference"):
+                            seen_err.add(s_["rv"]["variant"])
+                for _, c_, t_ in st.calls:
+                    if c_.endswith("map_err"):
+                        for r_ in provenance(f, t_["args"][1], through=None):
+                            if r_[0] == "const" and "VerificationAstError" in r_[1]:
+                                seen_err.add("VerificationAstError")
                 continue
             nok += 1
             parsed = [(b, t) for b, c, t in st.calls if re.search(r"full_moon::parse(_fallible)?$", c)]
@@ -109,6 +86,12 @@ def rule_verify(ctx, prop):
                               f"{skipped_by}): unparseable or altered output is returned as a success and the CLI writes it "
                               f"over the file", f.loc(), cfg)
         rep.floor("verify=Full paths of format_ast returning Ok", nok, 1, cfg)
+        for v in ("VerificationAstError", "VerificationAstDifference"):
+            ok = v in seen_err
+            rep.inst(f"{f.key} {v}-returns-Err", None, cfg, ok=ok)
+            if not ok:
+                rep.violation(f"{f.key} {v}-does-not-abort",
+                              f"with OutputVerification::Full no error path of format_ast reports Error::{v}", f.loc(), cfg)
     return rep
 
 
